@@ -3,7 +3,7 @@ import HcModel.Drv.Util
 /-
   Line protocol of the struct-TLV8 model (module `tlvs`).
 
-  type tokens   : u8 u16 u32 u64 i16 i32 i64 f32 bool str bytes
+  type tokens   : u8 u16 u32 u64 i8 i16 i32 i64 f32 bool str bytes
                   S <n> (<tag> <type>)*n        struct
                   L <n> (<tag> <type>)*n        []struct under the field's tag
                   I <n> (<tag> <type>)*n        []struct, inline (`tlv8:"-"`)
@@ -26,7 +26,7 @@ def parseTag (s : String) : Option UInt8 :=
 mutual
 partial def parseTy : List String → Option (Ty × List String)
   | "u8" :: r => some (.u8, r) | "u16" :: r => some (.u16, r) | "u32" :: r => some (.u32, r)
-  | "u64" :: r => some (.u64, r) | "i16" :: r => some (.i16, r) | "i32" :: r => some (.i32, r)
+  | "u64" :: r => some (.u64, r) | "i8" :: r => some (.i8, r) | "i16" :: r => some (.i16, r) | "i32" :: r => some (.i32, r)
   | "i64" :: r => some (.i64, r) | "f32" :: r => some (.f32, r) | "bool" :: r => some (.bool, r)
   | "str" :: r => some (.str, r) | "bytes" :: r => some (.bytes, r)
   | "S" :: n :: r => do
@@ -65,7 +65,7 @@ partial def parseVal : Ty → List String → Option (Val × List String)
     let (vs, r') ← parseElems fs k r
     pure (.list vs, r')
   | .list _ _, [] => none
-  | .i16, s :: r | .i32, s :: r | .i64, s :: r => (parseInt s).map fun i => (.int i, r)
+  | .i8, s :: r | .i16, s :: r | .i32, s :: r | .i64, s :: r => (parseInt s).map fun i => (.int i, r)
   | .bool, "t" :: r => some (.bool true, r)
   | .bool, "f" :: r => some (.bool false, r)
   | .bool, _ => none
